@@ -61,8 +61,14 @@ def gen_spec(rng, kind=None):
         for f in v["fields"]:
             if rng.random() < 0.2:
                 f["bound"] = rng.choice(["pre", "post"])
+    # PartialEq co-derived with #[eq(ignore)] / #[partial_eq(ignore)] on fields that Debug prints
+    co = rng.choice([None, None, None, "first", "last", "split"])
+    if co:
+        for v in variants:
+            for f in v["fields"]:
+                f["eq_ignore"] = rng.choice([None, "eq", "partial_eq"])
     return {"kind": kind, "variants": variants, "generic": generic, "entry": rng.choice(["attr", "derive"]),
-            "names": "r" if rng.random() < 0.25 else None}
+            "names": "r" if rng.random() < 0.25 else None, "co": co}
 
 
 def type_text(spec, twin):
@@ -71,7 +77,11 @@ def type_text(spec, twin):
         head = "#[derive(Debug)]\n"
         # a type parameter that is no longer used after deleting fields needs PhantomData-free handling: keep T via where-clause
     else:
-        head = "#[::derive_ex::derive_ex(Debug)]\n" if spec["entry"] == "attr" else "#[derive(::derive_ex::Ex)]\n#[derive_ex(Debug)]\n"
+        lists = {None: ["Debug"], "first": ["PartialEq, Debug"], "last": ["Debug, PartialEq"], "split": ["Debug", "PartialEq"]}[spec.get("co")]
+        if spec["entry"] == "attr":
+            head = f"#[::derive_ex::derive_ex({lists[0]})]\n" + "".join(f"#[derive_ex({x})]\n" for x in lists[1:])
+        else:
+            head = "#[derive(::derive_ex::Ex)]\n" + "".join(f"#[derive_ex({x})]\n" for x in lists)
     bodies = []
     uses_t = False
     for v in spec["variants"]:
@@ -87,6 +97,8 @@ def type_text(spec, twin):
                     args = ["bound(..)"] + args if f["bound"] == "pre" else args + ["bound(..)"]
                 if args:
                     a = f"#[debug({', '.join(args)})] "
+                if spec.get("co") and f.get("eq_ignore"):
+                    a = a + f"#[{f['eq_ignore']}(ignore)] " if i % 2 else f"#[{f['eq_ignore']}(ignore)] " + a
             if f["ft"] in ("T", "optT"):
                 uses_t = True
             pk = "pub " if spec["kind"] == "struct" else ""
@@ -129,10 +141,11 @@ def ctor(spec, vi, which, twin, prefix=""):
 def render(spec, control=False):
     dx, _ = type_text(spec, False)
     if control:
-        dx = re.sub(r"#\[debug\([^\]]*\)\] ", "", dx)
-        dx = dx.replace("#[::derive_ex::derive_ex(Debug)]", "#[derive(Debug)]").replace("#[derive(::derive_ex::Ex)]\n#[derive_ex(Debug)]", "#[derive(Debug)]")
+        dx = re.sub(r"#\[(debug|eq|partial_eq)\([^\]]*\)\] ", "", dx)
+        dx = re.sub(r"#\[::derive_ex::derive_ex\([^\]]*\)\]\n(#\[derive_ex\([^\]]*\)\]\n)*", "#[derive(Debug)]\n", dx)
+        dx = re.sub(r"#\[derive\(::derive_ex::Ex\)\]\n(#\[derive_ex\([^\]]*\)\]\n)*", "#[derive(Debug)]\n", dx)
     tw, tw_generic = type_text(spec, True)
-    inner_dx = ("#[derive(Debug)]" if control else "#[::derive_ex::derive_ex(Debug)]") + "\npub struct Inner { pub a: u8, pub b: f64 }"
+    inner_dx = ("#[derive(Debug, PartialEq)]" if control else "#[derive(PartialEq)] #[::derive_ex::derive_ex(Debug)]") + "\npub struct Inner { pub a: u8, pub b: f64 }"
     inner_tw = "#[derive(Debug)]\npub struct Inner { pub a: u8, pub b: f64 }"
     out = [inner_dx, dx, "pub mod tw {", inner_tw, tw, "}", "pub fn run() {"]
     for vi, v in enumerate(spec["variants"]):
